@@ -69,6 +69,8 @@ def function_level(g, v, tier):
     if not th.ok:
         print(th.tail(30))
         raise MachineryError("TypingMC: " + str(th.invariant_violated() or "TLC failed"))
+    # unbounded: numbering independence of the specified assignment, for every number of atoms / rule list / match relation / permutation
+    n_proved, _, t_pr = common.run_tlapm("TypingProofs")
     texts = [s for s in STRINGS] + [m.text() for m in I.core_instances() + I.extra_instances() + I.chem_instances(tier)
                                      if not m.name.startswith(("neg", "negative", "plain"))]
     rnd = random.Random(common.seed() + 20)
@@ -128,7 +130,7 @@ def function_level(g, v, tier):
                 diverge.append(f"{text} ({how}): {c}")
     if diverge:
         v.notes.append("the implementation chooses another type than spec/Typing.tla for some atom (not a clause of C20 unless numbering or masses are affected): " + "; ".join(diverge[:5]))
-    return {"theorem_states": th.distinct, "calls": len(obs), "molecules": sum(1 for m in meta if m[1].startswith("numbering")), "renumberings_per_molecule": K,
+    return {"theorem_states": th.distinct, "tlaps_obligations_proved": n_proved, "calls": len(obs), "molecules": sum(1 for m in meta if m[1].startswith("numbering")), "renumberings_per_molecule": K,
             "rules": len(rb.rules), "types": len(rb.type_names), "divergences_not_c20": len(diverge)}
 
 
